@@ -287,6 +287,41 @@ func linearAttempt(c *Ctx) {
 		_, isD := closesG[0].(*ssa.Defer)
 		okDefer = isD && isFirstEffect(g.fn, closesG[0])
 	}
+	// the clean-up (close and the ticker's Stop) as one deferred literal: registered in the entry block with nothing
+	// before it that can block, return or panic (creating the ticker is all), closing on every path through it
+	var cleanup *ssa.Function
+	if !okDefer && len(closesG) == 0 {
+		for _, x := range g.fn.Blocks[0].Instrs {
+			stop := false
+			switch y := x.(type) {
+			case *ssa.Defer:
+				if mc, isMC := y.Call.Value.(*ssa.MakeClosure); isMC {
+					lf := mc.Fn.(*ssa.Function)
+					cl := P.CallsTo(lf, "builtin:close")
+					if len(cl) == 1 && !P.PathExists(lf, nil, an.IsReturn, an.In(cl), nil) {
+						if _, isD := cl[0].(*ssa.Defer); !isD {
+							okDefer, cleanup = true, lf
+							closesG = cl
+						}
+					}
+				}
+				stop = true
+			case *ssa.Call:
+				if P.CalleeName(&y.Call) != "time.NewTicker" {
+					stop = true
+				}
+			case *ssa.Go, *ssa.Send, *ssa.Select, *ssa.Panic, *ssa.Return, *ssa.If:
+				stop = true
+			case *ssa.UnOp:
+				if y.Op == token.ARROW {
+					stop = true
+				}
+			}
+			if stop {
+				break
+			}
+		}
+	}
 	g.add("ONCE", "the goroutine closes the channel on every exit", okDefer, pickS(okDefer, "defer close(c) is the first statement of the goroutine", "the goroutine does not defer close(c) first: some exit would leave the channel open"), closesG...)
 	for _, r := range returnsOf(fn) {
 		closed := P.Before(fn, an.In(closesF), r)
@@ -312,6 +347,12 @@ func linearAttempt(c *Ctx) {
 	oks := len(stops) == 1
 	if oks {
 		_, oks = stops[0].(*ssa.Defer)
+	}
+	if !oks && cleanup != nil {
+		// stopped by the deferred clean-up literal, on every path through it
+		st := P.CallsTo(cleanup, "(*time.Ticker).Stop")
+		oks = len(st) == 1 && !P.PathExists(cleanup, nil, an.IsReturn, an.In(st), nil)
+		stops = st
 	}
 	g.add("REL", "the ticker is stopped when the goroutine exits", oks, "defer ticker.Stop()", stops...)
 }
